@@ -21,6 +21,7 @@ Every accepted library is written twice: `to_string`, and `save` over an existin
 saved bytes must be the to_string text (else the saved file is read back and judged)."""
 import json, re
 from vlib import *
+from props.kernelcommon import kernel_tie_leg
 from props.lefcommon import *
 from props import c04 as C4
 
@@ -284,6 +285,9 @@ def failure_class(r):
 
 def run(chk, replay=None):
     chk.proof_leg(["Lef/LefCheck.vo"], "Properties/C05.v", PROOF_FILES, "Properties.C05")
+    kernel_tie_leg(chk, "lef_write")      # LefWriter::write_layer_geom / write_geom / write_port / write_pin / write_via / write_site / write_units / write_density .. generated from lef21/src/write.rs = the lines of Lef/LefWrite.v (Properties/KernelsLef.v)
+    kernel_tie_leg(chk, "lef_write_lib")  # LefWriter::write_macro / format_numeric_prop_def / write_lib (the whole file) = write_macro / write_lib_lines of Lef/LefWrite.v, lines and failure alike
+    kernel_tie_leg(chk, "lef_parse")      # LefParser token helpers and parse_density generated from lef21/src/read.rs = Lef/LefParse.v (Properties/KernelsLef.v)
     chk.assumptions += [
         "rust_decimal's Decimal::from_str / Display / PartialEq are an external library: specified in Lef/LefDec.v from its source and validated by the correspondence",
         "std formatting (`write!`, Display of char and integers) and derive_builder `build()` are modelled by their documented behaviour",
